@@ -1151,6 +1151,7 @@ impl<Store: StorageData> DbImpl<Store> {
         let values_storage;
 
         if storage.value_size(StorageIndex(1)).is_err() {
+            let id = storage.transaction();
             storage.insert(&DbStorageIndex::default())?;
             graph_storage = DbGraph::new(&mut storage)?;
             aliases_storage = DbIndexedMap::new(&mut storage)?;
@@ -1164,6 +1165,7 @@ impl<Store: StorageData> DbImpl<Store> {
                 values: values_storage.storage_index(),
             };
             storage.insert_at(StorageIndex(1), 0, &db_storage_index)?;
+            storage.commit(id)?;
         } else {
             let index = if let Ok(index) = storage.value::<DbStorageIndex>(StorageIndex(1)) {
                 index
